@@ -192,4 +192,52 @@ theorem others2_abs2 (h0 h1 : Nat) (x : List (List Rat)) (i j : Nat) :
   rw [hm, hm, hg, slice_map, slice_map]
   simp only [List.map_append]
 
+/-! ### locality: the cell of an interior pixel is a function of its window -/
+
+theorem specMeanCell1_local (h i : Nat) (x y : List Rat) (hi : h ≤ i) (hx : i + h < x.length)
+    (hy : i + h < y.length) (hw : slice (i - h) (2 * h + 1) x = slice (i - h) (2 * h + 1) y) :
+    specMeanCell1 h x i = specMeanCell1 h y i := by
+  have hxl : i < x.length := by omega
+  have hyl : i < y.length := by omega
+  rw [slice_centre h i x hi hxl, slice_centre h i y hi hyl] at hw
+  have hl : (slice (i - h) h x).length = (slice (i - h) h y).length := by
+    rw [slice_length_of_le _ _ _ (by omega), slice_length_of_le _ _ _ (by omega)]
+  obtain ⟨e1, e2⟩ := List.append_inj hw hl
+  injection e2 with e3 e4
+  simp only [specMeanCell1, at1_eq x i hxl, at1_eq y i hyl, e1, e3, e4]
+
+theorem window_centre2 (h0 h1 i j : Nat) (x : List (List Rat)) (hi : h0 ≤ i) (hlt : i < x.length)
+    (hj : h1 ≤ j) (hjl : j < x[i].length) :
+    ((((slice (i - h0) (2 * h0 + 1) x).map (slice (j - h1) (2 * h1 + 1)))[h0]?).bind (fun r => r[h1]?))
+      = some (at2 x i j) := by
+  rw [List.getElem?_map, getElem?_slice, if_pos (by omega)]
+  have e : i - h0 + h0 = i := by omega
+  rw [e, List.getElem?_eq_getElem hlt]
+  simp only [Option.map_some, Option.bind_some]
+  rw [getElem?_slice, if_pos (by omega)]
+  have e2 : j - h1 + h1 = j := by omega
+  rw [e2, List.getElem?_eq_getElem hjl, at2_eq x i j hlt hjl]
+
+theorem specMeanCell2_local (h0 h1 n1 m1 i j : Nat) (x y : List (List Rat))
+    (hrx : ∀ r ∈ x, r.length = n1) (hry : ∀ r ∈ y, r.length = m1)
+    (hi : h0 ≤ i) (hx : i + h0 < x.length) (hy : i + h0 < y.length)
+    (hj : h1 ≤ j) (hxm : j + h1 < n1) (hym : j + h1 < m1)
+    (hw : (slice (i - h0) (2 * h0 + 1) x).map (slice (j - h1) (2 * h1 + 1))
+        = (slice (i - h0) (2 * h0 + 1) y).map (slice (j - h1) (2 * h1 + 1))) :
+    specMeanCell2 h0 h1 x i j = specMeanCell2 h0 h1 y i j := by
+  have hxl : i < x.length := by omega
+  have hyl : i < y.length := by omega
+  have hxr : x[i].length = n1 := hrx _ (List.getElem_mem hxl)
+  have hyr : y[i].length = m1 := hry _ (List.getElem_mem hyl)
+  have ea : at2 x i j = at2 y i j := by
+    have a := window_centre2 h0 h1 i j x hi hxl hj (by omega)
+    have b := window_centre2 h0 h1 i j y hi hyl hj (by omega)
+    rw [hw] at a
+    exact Option.some.inj (a.symm.trans b)
+  have eo : others2 h0 h1 x i j = others2 h0 h1 y i j := by
+    rw [← maskCentre2_interior h0 h1 i j n1 x hrx hi hx hj hxm,
+      ← maskCentre2_interior h0 h1 i j m1 y hry hi hy hj hym, hw]
+  have en : nbhd2 h0 h1 x i j = nbhd2 h0 h1 y i j := by unfold nbhd2; rw [hw]
+  simp only [specMeanCell2, ea, eo, en]
+
 end Pew.Filters
